@@ -115,9 +115,9 @@ func runC05A(prop string) {
 	defer c.Finish()
 	m := &mon{c: c, vioCases: map[string]int{}}
 
-	nFn, nTree := 20000, 2000
+	nFn, nTree, nShared, nTemplate := 20000, 2000, 10000, 120
 	if c.Tier == "thorough" {
-		nFn, nTree = 2000000, 100000
+		nFn, nTree, nShared, nTemplate = 2000000, 100000, 1000000, 4000
 	}
 	type fam struct {
 		name string
@@ -131,6 +131,8 @@ func runC05A(prop string) {
 		{"roletree", nTree, 2 << 32, m.caseRoleTree},
 		{"parse", nFn, 3 << 32, m.caseParse},
 		{"resources", nFn, 4 << 32, m.caseResources},
+		{"sharedparent", nShared, 5 << 32, m.caseSharedParent},
+		{"template", nTemplate, 6 << 32, m.caseTemplate},
 	}
 	for _, f := range fams {
 		lo, hi := c.Slice(f.n)
@@ -338,12 +340,41 @@ func (m *mon) checkMerged(prefix string, levels [][]ctDesc, got constraint.Const
 	return "", ""
 }
 
+// mergeChecked calls child.MergeParent(parent) and reports which input slice,
+// if any, differs afterwards from a deep copy taken before the call (the whole
+// backing array up to cap is compared, so a write beyond len is seen too).
+func mergeChecked(child, parent constraint.Constraints) (merged constraint.Constraints, modified string) {
+	pFull, cFull := parent[:cap(parent)], child[:cap(child)]
+	pCopy := append(constraint.Constraints{}, pFull...)
+	cCopy := append(constraint.Constraints{}, cFull...)
+	pLen, cLen := len(parent), len(child)
+	merged = child.MergeParent(parent)
+	if len(parent) != pLen {
+		return merged, "parent"
+	}
+	for k := range pCopy {
+		if pCopy[k] != pFull[k] {
+			return merged, "parent"
+		}
+	}
+	if len(child) != cLen {
+		return merged, "child"
+	}
+	for k := range cCopy {
+		if cCopy[k] != cFull[k] {
+			return merged, "child"
+		}
+	}
+	return merged, ""
+}
+
 func (m *mon) caseMerge(i int64, logIt bool) {
 	c := m.c
 	r := c.SubRand(i)
 	mc := genMergeCase(r, 1)
 	m.begin(mc, logIt, i == 1<<32)
 	var eff constraint.Constraints
+	modified, modifiedAt := "", 0
 	cl, det := guard("Constraints.MergeParent", func() {
 		// the way roleBase.getConstraints and Manager.BuildDescriptorConstraints fold:
 		// near.MergeParent(everything farther)
@@ -357,19 +388,22 @@ func (m *mon) caseMerge(i int64, logIt bool) {
 		}
 		eff = toConstraints(mc.Levels[0])
 		for l := 1; l < len(mc.Levels); l++ {
-			parent := eff
-			snapshot := append(constraint.Constraints{}, parent...)
-			eff = toConstraints(mc.Levels[l]).MergeParent(parent)
-			for k := range snapshot {
-				if snapshot[k] != parent[k] {
-					c.Count("merge_parent_argument_mutated", 1)
-					break
-				}
+			eff, modified = mergeChecked(toConstraints(mc.Levels[l]), eff)
+			if modified != "" {
+				modifiedAt = l
+				return
 			}
 		}
 	})
 	if cl != "" {
 		m.violation("CRASH", cl, det, mc)
+		return
+	}
+	if modified != "" {
+		// an input that is written to is somebody else's constraint list: the
+		// parent is the enclosing role's (or, in BuildDescriptorConstraints, the
+		// cached task template's) list, shared by every other descendant
+		m.violation("MERGE", "input-modified/"+modified, fmt.Sprintf("level %d .MergeParent(levels 0..%d merged) changed its %s argument", modifiedAt, modifiedAt-1, modified), mc)
 		return
 	}
 	c.Count("merge_cases", 1)
